@@ -45,6 +45,20 @@ def main():
     else:
         missing = sorted(t for t in stable if t not in passed)
         print(f"ran {len(passed) + len(failed)} tests; stable_pass={len(stable)}; stable tests not passing: {len(missing)}")
+    # under heavy machine load single tests hit the 900 s timeout: re-run what did not pass, alone, before judging
+    if missing and len(missing) <= 25:
+        still = []
+        for t in missing:
+            mod, name = t.split("::", 1)
+            path = mod.replace(".", "/") + ".py"
+            q = subprocess.run(["/venv/bin/python", "-m", "pytest", "-q", "-p", "no:cacheprovider", "--timeout=1800",
+                                f"{path}::{name}"], cwd=repo, env=env, capture_output=True, text=True)
+            if q.returncode != 0:
+                still.append(t)
+            else:
+                print("  (passed when re-run alone):", t)
+        missing = still
+        print(f"after re-running alone: stable tests not passing: {len(missing)}")
     for t in missing[:40]:
         print("  NOT PASSING:", t, failed.get(t, "not run"))
     print(tail.strip().split("\n")[-1])
